@@ -69,45 +69,59 @@ def matcher_rule(ctx, res, rule: str) -> None:
             "children = all iter_fields values except expr_context" if ok else
             f"_ASTMatcher._get_children: {why}: nodes differing only in a skipped field compare equal")
     mn = idx.need_func("rope.refactor.similarfinder._ASTMatcher._match_nodes")
-    cfg = CFG(mn.node)
     dims = {"class": False, "child-count": False, "list-length": False, "scalar": False, "recursive": 0}
-
-    def rejects(t, lab) -> bool:
-        """the `lab` edge of test t leads straight to `return False`"""
-        for b2, l in cfg.succ[t.id]:
-            if l == lab:
-                n2 = cfg.nodes[b2]
-                if n2.kind == "stmt" and isinstance(n2.ast, ast.Return) and isinstance(n2.ast.value, ast.Constant) \
-                        and n2.ast.value.value is False:
-                    return True
-        return False
-
-    nlen = 0
-    for t in cfg.nodes:
-        if t.kind != "test":
-            continue
-        s_ = ast.unparse(t.ast)
-        if isinstance(t.ast, ast.Compare) and isinstance(t.ast.ops[0], ast.NotEq) and rejects(t, "true"):
-            if "__class__" in s_:
-                dims["class"] = True
-            elif s_.count("type(") == 2:
-                pass  # scalar type identity, handled below
-            elif s_.count("len(") == 2:
-                nlen += 1
-            else:
-                dims["scalar"] = True
-        if isinstance(t.ast, ast.Call) and call_name(t.ast) == "_match_nodes" and rejects(t, "false"):
-            dims["recursive"] += 1
-    # scalar fields must be compared by type identity as well as by value (1 == 1.0 == True in Python)
     dims["scalar-type"] = False
-    for t in cfg.nodes:
-        if t.kind == "test" and isinstance(t.ast, ast.Compare) and isinstance(t.ast.ops[0], (ast.IsNot, ast.NotEq)) and rejects(t, "true"):
-            l, r_ = t.ast.left, t.ast.comparators[0]
-            if all(isinstance(x, ast.Call) and call_name(x) == "type" and len(x.args) == 1 for x in (l, r_)) \
-                    and "__class__" not in ast.unparse(t.ast):
-                names = {ast.unparse(x.args[0]) for x in (l, r_)}
-                if len(names) == 2 and not any("expected" in n_ or n_ == "node" for n_ in names):
-                    dims["scalar-type"] = True
+    nlen = 0
+
+    def make_rejects(cfg):
+        def rejects(t, lab) -> bool:
+            """the `lab` edge of test t leads straight to `return False`"""
+            for b2, l in cfg.succ[t.id]:
+                if l == lab:
+                    n2 = cfg.nodes[b2]
+                    if n2.kind == "stmt" and isinstance(n2.ast, ast.Return) and isinstance(n2.ast.value, ast.Constant) \
+                            and n2.ast.value.value is False:
+                        return True
+            return False
+        return rejects
+
+    # the matcher proper, plus every private boolean helper whose falsy answer makes the matcher reject at once
+    # (`if not self._helper(...): return False`): a `return False` in such a helper is a rejecting exit of the matcher
+    main_cfg = CFG(mn.node)
+    main_rejects = make_rejects(main_cfg)
+    scan = [(mn, main_cfg)]
+    from .common import with_private_helpers
+    for h in with_private_helpers(idx, mn, depth=1):
+        if h is mn:
+            continue
+        if any(t.kind == "test" and isinstance(t.ast, ast.Call) and call_name(t.ast) == h.name and main_rejects(t, "false") for t in main_cfg.nodes):
+            scan.append((h, CFG(h.node)))
+    for fn_, cfg in scan:
+        rejects = make_rejects(cfg)
+        for t in cfg.nodes:
+            if t.kind != "test":
+                continue
+            s_ = ast.unparse(t.ast)
+            if isinstance(t.ast, ast.Compare) and isinstance(t.ast.ops[0], ast.NotEq) and rejects(t, "true"):
+                if "__class__" in s_:
+                    dims["class"] = True
+                elif s_.count("type(") == 2:
+                    pass  # scalar type identity, handled below
+                elif s_.count("len(") == 2:
+                    nlen += 1
+                else:
+                    dims["scalar"] = True
+            if isinstance(t.ast, ast.Call) and call_name(t.ast) == "_match_nodes" and rejects(t, "false"):
+                dims["recursive"] += 1
+        # scalar fields must be compared by type identity as well as by value (1 == 1.0 == True in Python)
+        for t in cfg.nodes:
+            if t.kind == "test" and isinstance(t.ast, ast.Compare) and isinstance(t.ast.ops[0], (ast.IsNot, ast.NotEq)) and rejects(t, "true"):
+                l, r_ = t.ast.left, t.ast.comparators[0]
+                if all(isinstance(x, ast.Call) and call_name(x) == "type" and len(x.args) == 1 for x in (l, r_)) \
+                        and "__class__" not in ast.unparse(t.ast):
+                    names = {ast.unparse(x.args[0]) for x in (l, r_)}
+                    if len(names) == 2 and not any("expected" in n_ or n_ == "node" for n_ in names):
+                        dims["scalar-type"] = True
     dims["child-count"] = nlen >= 1
     dims["list-length"] = nlen >= 2
     missing = [k for k, v in dims.items() if not v or (k == "recursive" and v < 2)]
@@ -401,7 +415,9 @@ def _paren_preserving_rule(ctx, res) -> None:
     whose body produces '(' and ')' around its argument -- never the bare node text."""
     idx = ctx.idx
     f = idx.need_func("rope.refactor.restructure._ChangeComputer._get_matched_text")
-    stores = [x for x in walk_local(f.node) if isinstance(x, ast.Assign) and any(isinstance(t, ast.Subscript) for t in x.targets)
+    from .common import with_private_helpers
+    stores = [x for g in with_private_helpers(idx, f) for x in walk_local(g.node)  # the mapping may be built in a private helper
+              if isinstance(x, ast.Assign) and any(isinstance(t, ast.Subscript) for t in x.targets)
               and any(isinstance(c, ast.Call) and call_name(c) == "_get_node_text" for c in ast.walk(x.value))]
     if not stores:
         raise AnalysisError("anchor=_ChangeComputer._get_matched_text: store of the bound text into the mapping not found")
